@@ -148,7 +148,28 @@ fn check_triangle(ctx: &mut Ctx, v: [Point; 3]) -> FastSet<(i32, i32)> {
     if (tv[0].0 + 3 * tv[1].1 + 5 * tv[2].0).rem_euclid(4) == 0 {
         use egmon::target::{cut_boxes, restrict, unbounded_box, IterTarget, NativeTarget, PixMap};
         ctx.eval();
-        for (what, want_set, style) in [("filled", &set, PrimitiveStyle::with_fill(BinaryColor::On)), ("1px-outline", &outline, outline_style)] {
+        // a fill without a stroke is the same filled triangle however the (absent) stroke is
+        // configured: the alignment and stroke colour of a zero-width stroke vary with the case
+        // (non-degenerate triangles; with_fill for the others)
+        let fill_variant = if degenerate { 0 } else { (tv[0].1 + 2 * tv[1].0 + 3 * tv[2].1 + tv[2].0).rem_euclid(6) };
+        let fill_style = {
+            use embedded_graphics::primitives::{PrimitiveStyleBuilder, StrokeAlignment};
+            let b = PrimitiveStyleBuilder::new().fill_color(BinaryColor::On).stroke_width(0);
+            match fill_variant {
+                0 => PrimitiveStyle::with_fill(BinaryColor::On),
+                1 => b.stroke_alignment(StrokeAlignment::Inside).build(),
+                2 => b.stroke_alignment(StrokeAlignment::Outside).build(),
+                3 => b.stroke_alignment(StrokeAlignment::Center).stroke_color(BinaryColor::Off).build(),
+                4 => b.stroke_alignment(StrokeAlignment::Inside).stroke_color(BinaryColor::Off).build(),
+                _ => b.stroke_alignment(StrokeAlignment::Outside).stroke_color(BinaryColor::Off).build(),
+            }
+        };
+        ctx.count(["fills_with_fill", "fills_zero_width_stroke_inside", "fills_zero_width_stroke_outside", "fills_zero_width_coloured_stroke_center", "fills_zero_width_coloured_stroke_inside", "fills_zero_width_coloured_stroke_outside"][fill_variant as usize], 1);
+        let fill_pixels: FastSet<(i32, i32)> = t.into_styled(fill_style).pixels().take(budget * 3 + 64).map(|p| (p.0.x, p.0.y)).collect();
+        if fill_pixels != set {
+            ctx.violation("triangle|filled-pixels-differ-from-points", || format!("{} fill style variant {}", case(), fill_variant), || format!("pixels() of the fill-only style has {} points, points() {}", fill_pixels.len(), set.len()));
+        }
+        for (what, want_set, style) in [("filled", &set, fill_style), ("1px-outline", &outline, outline_style)] {
             let mut want = PixMap::new();
             for &(x, y) in want_set.iter() {
                 want.set(x, y, 1);
@@ -165,7 +186,7 @@ fn check_triangle(ctx: &mut Ctx, v: [Point; 3]) -> FastSet<(i32, i32)> {
                 let want_in = restrict(&want, &bx);
                 for (path, map) in [("draw_iter-only", &a.log.map), ("native", &b.log.map)] {
                     if !map.same(&want_in) {
-                        ctx.violation(format!("triangle|draw-{}-differs-from-points-inside-the-target", what), || format!("{} on target box {:?}", case(), egmon::target::rt(&bx)), || format!("{} target: first difference {:?} (x, y, drawn, expected)", path, map.first_diff(&want_in)));
+                        ctx.violation(format!("triangle|draw-{}-differs-from-points-inside-the-target", what), || format!("{} on target box {:?} (fill style variant {})", case(), egmon::target::rt(&bx), fill_variant), || format!("{} target: first difference {:?} (x, y, drawn, expected)", path, map.first_diff(&want_in)));
                         break;
                     }
                 }
